@@ -388,6 +388,33 @@ class Inliner(object):
         self.mod_helpers, self.cls_helpers = collect_helpers(tree, anchors)
         self.count = 0
         self.log = []
+        # single-inheritance chains inside the module: ``self._helper(..)`` in a subclass method names the helper
+        # defined by a base class of the same module (collect_helpers admits a method name only when exactly one
+        # class of the module defines it, so no class on the chain overrides it)
+        self.cls_bases, self.cls_assigned = {}, {}
+        for st in tree.body:
+            if isinstance(st, ast.ClassDef):
+                self.cls_bases[st.name] = None if st.name in self.cls_bases else list(st.bases)
+                names = self.cls_assigned.setdefault(st.name, set())
+                for cst in st.body:
+                    if isinstance(cst, (ast.FunctionDef, ast.AsyncFunctionDef, ast.ClassDef)):
+                        continue
+                    names |= _stored_names([cst])
+
+    def _inherited_helper(self, cls_name, attr):
+        """The helper ``attr`` that ``self.attr`` / ``cls.attr`` names inside class ``cls_name``: defined there or in
+        a base class reached through a chain of single, same-module bases none of which re-binds the name."""
+        cur, seen = cls_name, set()
+        while cur is not None and cur not in seen:
+            seen.add(cur)
+            if (cur, attr) in self.cls_helpers:
+                return self.cls_helpers[(cur, attr)]
+            bases = self.cls_bases.get(cur)
+            if attr in self.cls_assigned.get(cur, ()) or not bases or len(bases) != 1 or \
+                    not isinstance(bases[0], ast.Name) or self.cls_bases.get(bases[0].id) is None:
+                return None
+            cur = bases[0].id
+        return None
 
     # -- which helper does this call name? ------------------------------------------------------------
     def _helper_of(self, call, cls_name):
@@ -398,8 +425,10 @@ class Inliner(object):
             return self.mod_helpers[f.id], None
         if isinstance(f, ast.Attribute) and isinstance(f.value, ast.Name):
             recv = f.value.id
-            if recv in ('self', 'cls') and cls_name is not None and (cls_name, f.attr) in self.cls_helpers:
-                return self.cls_helpers[(cls_name, f.attr)], f.value
+            if recv in ('self', 'cls') and cls_name is not None:
+                h = self._inherited_helper(cls_name, f.attr)
+                if h is not None:
+                    return h, f.value
             if (recv, f.attr) in self.cls_helpers and self.cls_helpers[(recv, f.attr)].kind in ('static', 'class'):
                 return self.cls_helpers[(recv, f.attr)], f.value
         return None, None
